@@ -127,7 +127,9 @@ def generate(seed, tier):
             quads = _gen_doc(g, fmt, lab, quadfmt, gnames)
             repeat = False
         mode = g.choice(["data-str", "data-bytes", "raw", "raw", "text"])
-        call = {"uid": i + 1, "k": "parse", "format": fmt, "quads": quads, "mode": mode, "chunks": chunk_schedule(g), "repeat": repeat}
+        call = {"uid": i + 1, "k": "parse", "format": fmt, "quads": quads, "mode": mode, "chunks": chunk_schedule(g), "repeat": repeat, "styled": g.random() < 0.5}
+        if g.random() < 0.3:
+            call["reseed"] = 12345
         if fault_call == i:
             call["mode"] = g.choice(["raw", "text"])
             call["fault"] = {"kind": g.choice(["error", "eof"]), "frac": g.random()}
@@ -151,6 +153,9 @@ def nontrivial(trace, res):
 def _norm(k):
     if k[0] == "l" and k[3] == XSD + "string":
         return ("l", k[1], k[2], None)
+    if k[0] == "?":
+        # an N3 formula node (QuotedGraph): numbered by a process-wide counter, i.e. fresh per parse like a blank node
+        return ("b", "formula:" + k[2])
     return k
 
 
@@ -283,10 +288,18 @@ def _execute(trace, ctx):
         quads = [[resolve(x) for x in q] for q in call["quads"]]
         if not (fmt in writers.QUAD_FORMATS and kind not in ("graph-memory", "graph-simple")):
             quads = [q[:3] + [None] for q in quads]
+        import random as _random
+
+        style = _random.Random(call["uid"] * 7919 + len(quads) * 31 + len(cfg["init"])) if call.get("styled") else None
         try:
-            doc = writers.WRITERS[fmt](quads)
+            doc = writers.WRITERS[fmt](quads, style)
         except ValueError:
             continue
+        if call.get("reseed") is not None:
+            # the host program re-seeds Python's global generator (a legal thing for it to do): ids minted for separate parse
+            # calls must stay distinct all the same
+            _random.seed(call["reseed"])
+            ctx.probe("global-random-reseeded-between-calls")
         labels = {x[1] for q in quads for x in q if x is not None and x[0] == "b"}
         old_b = {k[1] for k in iso.bnodes(old)}
         if labels:
@@ -318,6 +331,13 @@ def _execute(trace, ctx):
             s2, t2, _ = make_sink(kind)
             s2.parse(data=doc, format=fmt)
             alone = observe(t2, kind, target)
+            alone_full = alone
+            if fmt == "n3":
+                # the quoted formula of our N3 spelling adds a statement about a formula node and quoted triples in the formula's
+                # own context; neither belongs to the intended data
+                keep = {q for q in alone if all(k[0] in ("u", "b", "l") for k in q[:3]) and q[0] != ("u", "http://ex.org/formula-holder") and q[0] != ("u", "http://ex.org/fa") and q[1] != ("u", "http://ex.org/fc")}
+                alone_extra = alone - keep
+                alone = keep
             # where a syntax puts triples written outside any named graph is not C12's business (TriX: an anonymous graph):
             # accept the nominal target or any single graph of the result, a blank-node-named one matched as a blank node
             cands = [D] + [_place(quads, ("b", "@target") if c[0] == "b" else c, lambda t: t) for c in _srt({q[3] for q in alone})]
@@ -328,11 +348,11 @@ def _execute(trace, ctx):
                     break
             ctx.check(ok is not None, "C12.document-alone", lambda: f"{fmt} document parsed into an empty {kind} sink is not the intended dataset: intended={_srt(D)} got={_srt(alone)}\n{doc}", fmt=fmt, sink=kind)
             if ok is not None:
-                D = ok
+                D = ok if fmt != "n3" else alone_full  # (N3: the reference for the merge check includes what the formula adds)
             if call["uid"] % 2 == 0:
                 s3, t3, _ = make_sink(kind)
                 s3.parse(data=doc, format=fmt)
-                ctx.check(iso.isomorphic(alone, observe(t3, kind, target)), "C12.two-fresh-graphs", lambda: f"parsing the same {fmt} document into two fresh sinks gives non-isomorphic results")
+                ctx.check(iso.isomorphic(alone_full, observe(t3, kind, target)), "C12.two-fresh-graphs", lambda: f"parsing the same {fmt} document into two fresh sinks gives non-isomorphic results")
 
         kwargs, stream = _deliver(call, doc, ctx.faults)
         err = None
@@ -376,7 +396,8 @@ def _execute(trace, ctx):
                 m = iso.find_embedding(added, D | added_ground_ok(added, D), onto=False)
                 ctx.check(m is not None, "C12.fault-garbage", lambda: f"parse #{call['uid']} ({fmt}) under fault {call['fault']}: added quads are not part of the document: added={_srt(added)} doc={_srt(D)}\n{doc}", fmt=fmt)
         for b in iso.bnodes(added):
-            if b[1] not in generated and b not in fresh_forbidden:
+            # (only ids that can be written as a label in a document; formula nodes cannot)
+            if b[1] not in generated and b not in fresh_forbidden and b[1].isalnum() and b[1][0].isalpha():
                 generated.append(b[1])
         generated.sort()
         ctx.log("parse", f"{fmt} {call['mode']} fault={call.get('fault', {}).get('kind')} fired={fired} err={type(err).__name__ if err else None} +{len(added)}")
